@@ -1,5 +1,5 @@
 \* as-built switches (pinned tree): PROG log with the expected (declarative) and the as-built status
-\* thorough family A: path sets up to 3, up to 2 models; 3-change invocations: share C26_PART of C26_NPARTS
+\* thorough family A: path sets up to 3, up to 2 models; 3-change invocations: share C26_PART of C26_NPARTS (16)
 CONSTANTS MaxDev = 2  SampleDev = 3  MaxPaths = 3  MaxModels = 2  MaxModelsRich = 2  MaxOpts = 2
           CliCountsTranslateFailures = FALSE  CliCatchesTranslateErrors = FALSE  CliCountsMissingModelFile = FALSE
           Emit = TRUE  NParts <- NPartsEnv  Part <- PartEnv
